@@ -45,7 +45,21 @@ fn gen_name(t: &mut Tape) -> Vec<u8> {
     }
 }
 
+/// short values whose Huffman coding is much longer than the raw bytes
+/// (obs-text / UTF-8 and the ASCII symbols with 13..15-bit codes)
+fn gen_long_code_value(t: &mut Tape) -> Vec<u8> {
+    let n = 1 + t.below(70);
+    match t.below(3) {
+        0 => "\u{4e2d}\u{6587}\u{65e5}\u{672c}".chars().cycle().skip(t.below(4)).take(n).collect::<String>().into_bytes(),
+        1 => (0..n).map(|_| [0x5cu8, b'<', b'>', b'{', b'}', b'^', b'`', b'|'][t.below(8)]).collect(),
+        _ => (0..n).map(|_| 0x80 + t.below(0x80) as u8).collect(),
+    }
+}
+
 fn gen_value(t: &mut Tape, big: bool) -> Vec<u8> {
+    if t.chance(1, 12) {
+        return gen_long_code_value(t);
+    }
     match t.weighted(&[10, 5, 2, if big { 2 } else { 0 }]) {
         0 => t.pick(VALUES).as_bytes().to_vec(),
         1 => {
@@ -760,7 +774,7 @@ pub struct HdrSpec {
     pub path: Option<String>,
     pub protocol: Option<String>,
     pub status: Option<u16>,
-    /// (name, value, sensitive)
+    /// (name, value as hex, sensitive)
     pub fields: Vec<(String, String, bool)>,
     pub end_stream: bool,
 }
@@ -819,7 +833,7 @@ fn gen_hdr(t: &mut Tape, stream: u32, big: bool) -> HdrSpec {
     };
     for _ in 0..nf {
         let name = String::from_utf8(gen_name(t)).unwrap();
-        let value = String::from_utf8(gen_value(t, big)).unwrap();
+        let value = crate::util::hex(&gen_value(t, big));
         h.fields.push((name, value, t.chance(1, 8)));
     }
     h
@@ -857,7 +871,7 @@ fn build_h2_headers(h: &HdrSpec) -> (hf::Frame<Bytes>, Vec<Field>) {
     let mut map = http::HeaderMap::new();
     for (n, v, sens) in &h.fields {
         let name = http::header::HeaderName::from_bytes(n.as_bytes()).unwrap();
-        let mut val = http::header::HeaderValue::from_bytes(v.as_bytes()).unwrap();
+        let mut val = http::header::HeaderValue::from_bytes(&crate::util::unhex(v).unwrap()).unwrap();
         val.set_sensitive(*sens);
         map.append(name, val);
     }
@@ -1382,4 +1396,27 @@ pub fn exhaustive_integers(max_cont: usize) -> ExhaustiveReport {
         }
     }
     rep
+}
+
+/// Debug helper for `h2v replay`: print the codec outcomes of a split case.
+pub fn debug_split(case: &SplitCase) {
+    let mut prefix = Vec::new();
+    let mut sid = 1;
+    let n = case.events.len();
+    for (i, ev) in case.events.iter().enumerate() {
+        if let DecEv::Block(b) = ev {
+            if i + 1 == n {
+                let mut w = prefix.clone();
+                w.extend(header_frames(sid, &b.bytes, &[], case.padded, case.priority, case.push_promise, true));
+                println!("whole : {:?}", codec_read_all(w, vec![], &[], None));
+                let sp = if case.splits.is_empty() { vec![1] } else { case.splits.clone() };
+                let mut p = prefix.clone();
+                p.extend(header_frames(sid, &b.bytes, &sp, case.padded, case.priority, case.push_promise, true));
+                println!("pieces: {:?}", codec_read_all(p, case.read_plan.clone(), &[], None));
+            } else {
+                prefix.extend(header_frames(sid, &b.bytes, &[], false, false, false, false));
+                sid += 2;
+            }
+        }
+    }
 }
